@@ -167,6 +167,33 @@ impl Term {
             tabs
         )
     }
+    /// the part of the digest the TermGeo model reproduces
+    pub fn geo_ints(&self) -> Vec<i64> {
+        let p = self.caret.get_position();
+        let ts = &self.buf.terminal_state;
+        let (mt, mb) = ts.get_margins_top_bottom().map(|(a, b)| (a as i64, b as i64)).unwrap_or((-7, -7));
+        let (ml, mr) = ts.get_margins_left_right().map(|(a, b)| (a as i64, b as i64)).unwrap_or((-7, -7));
+        vec![
+            p.x as i64,
+            p.y as i64,
+            self.buf.get_first_visible_line() as i64,
+            ts.get_width() as i64,
+            ts.get_height() as i64,
+            self.buf.get_width() as i64,
+            self.buf.get_height() as i64,
+            self.caret.insert_mode as i64,
+            (ts.auto_wrap_mode == icy_engine::AutoWrapMode::AutoWrap) as i64,
+            mt,
+            mb,
+            ml,
+            mr,
+            ts.dec_margin_mode_left_right as i64,
+        ]
+    }
+    pub fn geo_hash(&self, out: &str) -> u64 {
+        let tabs = fnv(self.buf.terminal_state.get_tabs().iter().map(|t| *t as i64 as u64));
+        fnv(self.geo_ints().into_iter().map(|v| v as u64).chain([tabs]).chain(out.chars().map(|c| c as u64)))
+    }
     /// `Line::get_line_length` of the caret row of layer 0 (the oracle argument of HPA/HPR in the model)
     pub fn caret_line_len(&self) -> i32 {
         let y = self.caret.get_position().y;
@@ -580,7 +607,12 @@ pub fn run_case(line: &str, slow_ms: u128, emit: &mut dyn FnMut(String)) {
     let mut resized = false;
     let mut hash: u64 = 14695981039346656037;
     let mut tok_start = std::time::Instant::now();
+    let modelled = matches!(emu, Emu::Ansi(_));
+    let mut items: Vec<String> = Vec::new();
+    let mut mh: u64 = 14695981039346656037;
+    let mut checkpoints: Vec<u64> = Vec::new();
     for (i, ch) in chars.iter().enumerate() {
+        let line_len = if modelled { t.caret_line_len() } else { 0 };
         if i == 0 || labels[i] != labels[i - 1] || true {
             // token boundaries are approximated by label changes; time is measured per character run of a label
         }
@@ -588,9 +620,28 @@ pub fn run_case(line: &str, slow_ms: u128, emit: &mut dyn FnMut(String)) {
             tok_start = std::time::Instant::now();
         }
         let out = t.feed(*ch);
+        if modelled {
+            let (ostr, ext) = match &out {
+                Outcome::Ok => ("ok", 1),
+                Outcome::Err => ("err", 0),
+                Outcome::Resize => ("resize", 1),
+                Outcome::Panic(_, _) => ("panic", 0),
+            };
+            items.push(format!("{}:{}:{}", *ch as u32, line_len, ext));
+            if ostr != "panic" {
+                mh = fnv_step(mh, t.geo_hash(ostr));
+                if (i + 1) % 32 == 0 {
+                    checkpoints.push(mh);
+                }
+            }
+        }
         match out {
             Outcome::Panic(site, loc) => {
                 emit(format!("P {} {} {} {}", i, site, labels[i], loc));
+                if modelled {
+                    emit(format!("M {}", model_op(emu, w, h, &items)));
+                    emit(format!("I panic after {}: {}", i, site));
+                }
                 return; // state after an unwinding panic is not meaningful
             }
             Outcome::Err => errs += 1,
@@ -636,5 +687,19 @@ pub fn run_case(line: &str, slow_ms: u128, emit: &mut dyn FnMut(String)) {
             }
         }
     }
+    if modelled {
+        emit(format!("M {}", model_op(emu, w, h, &items)));
+        let d: Vec<String> = t.geo_ints().iter().map(|v| v.to_string()).collect();
+        let cps: Vec<String> = checkpoints.iter().map(|v| v.to_string()).collect();
+        emit(format!("I {} {} [{}] {}", chars.len(), mh, d.join(" "), cps.join(" ")));
+    }
     emit(format!("S {} {} {} {}", chars.len(), errs, after_err_ok, hash));
+}
+
+fn model_op(emu: Emu, w: i32, h: i32, items: &[String]) -> String {
+    let m = match emu {
+        Emu::Ansi(m) => m,
+        _ => 0,
+    };
+    format!("term run {} 1 {} {} {}", m, w, h, if items.is_empty() { "-".to_string() } else { items.join(",") })
 }
